@@ -512,4 +512,514 @@ pub fn check(ctx: &mut Ctx) {
         }
     }
     let _ = gen::small_int;
+    // ---- chains of aggregation stages (a stage that is not the first aggregation), non-terminal
+    let nc = ctx.budget(640, 24000);
+    for _ in 0..nc {
+        let mut r = ctx.rng.fork();
+        chain_plain(ctx, &mut r);
+    }
+    // ---- the same chains on a live terminal: the chain is re-run on every refresh
+    let nl = ctx.budget(96, 640);
+    for i in 0..nl {
+        let mut r = ctx.rng.fork();
+        chain_live(ctx, i, &mut r);
+    }
+}
+
+/* ---------- aggregation of an aggregation: generated chains and their reference ---------- */
+
+/// a cell of the reference tables: integers, words and None only (no floats: their spelling is not
+/// this property's subject)
+#[derive(Clone, Debug, PartialEq, Eq, PartialOrd, Ord)]
+enum V {
+    N,
+    I(i64),
+    S(String),
+}
+
+/// a row; a member that is absent = the field is missing (only possible in the input documents)
+type RRow = BTreeMap<String, V>;
+
+#[derive(Clone, Debug)]
+enum AF {
+    Count,
+    CountGt(String, i64),
+    Sum(String),
+    Min(String),
+    Max(String),
+    Distinct(String),
+}
+
+#[derive(Clone, Debug)]
+enum St {
+    Agg { funs: Vec<(String, AF)>, keys: Vec<String> },
+    /// `where col > t` (gt) or `where col <= t`, on a column that always holds an integer
+    Where { col: String, gt: bool, t: i64 },
+}
+
+/// what a column can hold
+#[derive(Clone, Copy, PartialEq, Debug)]
+enum Kind {
+    Int,
+    IntOpt,
+    Word,
+}
+
+fn af_text(f: &AF) -> String {
+    match f {
+        AF::Count => "count".into(),
+        AF::CountGt(c, t) => format!("count({} > {})", c, t),
+        AF::Sum(c) => format!("sum({})", c),
+        AF::Min(c) => format!("min({})", c),
+        AF::Max(c) => format!("max({})", c),
+        AF::Distinct(c) => format!("count_distinct({})", c),
+    }
+}
+
+fn st_text(s: &St) -> String {
+    match s {
+        St::Agg { funs, keys } => format!(
+            "{}{}",
+            funs.iter().map(|(n, f)| format!("{} as {}", af_text(f), n)).collect::<Vec<_>>().join(", "),
+            if keys.is_empty() { String::new() } else { format!(" by {}", keys.join(", ")) }
+        ),
+        St::Where { col, gt, t } => format!("where {} {} {}", col, if *gt { ">" } else { "<=" }, t),
+    }
+}
+
+/// The property, executed: one row per distinct key combination among `rows` (a key that is missing
+/// groups under None), every function over exactly the rows of its group; numeric functions ignore
+/// rows whose argument is missing or not a number.  None = not judged (a key-less stage that no row
+/// reaches: the statement says nothing about it).
+fn ref_stage(rows: &[RRow], st: &St) -> Option<Vec<RRow>> {
+    match st {
+        St::Where { col, gt, t } => {
+            let mut out = vec![];
+            for row in rows {
+                match row.get(col) {
+                    Some(V::I(i)) => {
+                        if (*i > *t) == *gt {
+                            out.push(row.clone())
+                        }
+                    }
+                    _ => return None, // (the generator filters on always-integer columns only)
+                }
+            }
+            Some(out)
+        }
+        St::Agg { funs, keys } => {
+            if rows.is_empty() && keys.is_empty() {
+                return None;
+            }
+            let mut groups: BTreeMap<Vec<V>, Vec<&RRow>> = BTreeMap::new();
+            for row in rows {
+                let kv: Vec<V> = keys.iter().map(|k| row.get(k).cloned().unwrap_or(V::N)).collect();
+                groups.entry(kv).or_default().push(row);
+            }
+            let mut out = vec![];
+            for (kv, members) in groups {
+                let mut o: RRow = BTreeMap::new();
+                for (k, v) in keys.iter().zip(kv) {
+                    o.insert(k.clone(), v);
+                }
+                let ints = |c: &String| -> Vec<i64> {
+                    members
+                        .iter()
+                        .filter_map(|m| match m.get(c) {
+                            Some(V::I(i)) => Some(*i),
+                            _ => None,
+                        })
+                        .collect()
+                };
+                for (name, f) in funs {
+                    let v = match f {
+                        AF::Count => V::I(members.len() as i64),
+                        AF::CountGt(c, t) => V::I(ints(c).iter().filter(|i| **i > *t).count() as i64),
+                        AF::Sum(c) => V::I(ints(c).iter().sum()),
+                        AF::Min(c) => ints(c).iter().min().map(|i| V::I(*i)).unwrap_or(V::N),
+                        AF::Max(c) => ints(c).iter().max().map(|i| V::I(*i)).unwrap_or(V::N),
+                        AF::Distinct(c) => {
+                            let mut vals: Vec<&V> = members.iter().filter_map(|m| m.get(c)).collect();
+                            vals.sort();
+                            vals.dedup();
+                            V::I(vals.len() as i64)
+                        }
+                    };
+                    o.insert(name.clone(), v);
+                }
+                out.push(o);
+            }
+            Some(out)
+        }
+    }
+}
+
+fn ref_chain(docs: &[RRow], chain: &[St]) -> Option<Vec<RRow>> {
+    let mut rows = docs.to_vec();
+    for st in chain {
+        rows = ref_stage(&rows, st)?;
+    }
+    Some(rows)
+}
+
+/// the columns of the chain's final table
+fn final_columns(chain: &[St]) -> Vec<String> {
+    for st in chain.iter().rev() {
+        if let St::Agg { funs, keys } = st {
+            return keys.iter().cloned().chain(funs.iter().map(|f| f.0.clone())).collect();
+        }
+    }
+    vec![]
+}
+
+/// rows as sorted tuples over `cols` (the row order of a table is not this property's subject)
+fn project(rows: &[RRow], cols: &[String]) -> Vec<Vec<V>> {
+    let mut out: Vec<Vec<V>> = rows.iter().map(|r| cols.iter().map(|c| r.get(c).cloned().unwrap_or(V::S("<column missing>".into()))).collect()).collect();
+    out.sort();
+    out
+}
+
+struct Chain {
+    stages: Vec<St>,
+    query: String,
+    docs: Vec<RRow>,
+    input: Vec<u8>,
+}
+
+/// Two or three aggregation stages; the keys of a later stage are mostly aggregate columns of the
+/// stage before (counts that grow while the input arrives, minima / maxima / sums that move), so
+/// that the tables of input prefixes hold key values the final table lacks.  Now and then a
+/// `where` on an always-integer column sits between two stages.
+fn gen_chain(r: &mut Rng, rows: usize) -> Chain {
+    // the documents: few distinct keys, small integers (values of different groups coincide often)
+    let nk = 1 + r.below(4);
+    let nb = 1 + r.below(3);
+    let (vlo, vhi) = *r.pick(&[(0i64, 3i64), (-9, 40), (1, 9), (-3, 3)]);
+    let (miss_k, miss_b, miss_v) = (*r.pick(&[0usize, 0, 8, 30]), *r.pick(&[0usize, 10, 40]), *r.pick(&[0usize, 15, 50]));
+    let mut docs: Vec<RRow> = vec![];
+    let mut input = String::new();
+    for _ in 0..rows {
+        let mut d: RRow = BTreeMap::new();
+        let mut m: Vec<String> = vec![];
+        if !r.chance(miss_k) {
+            let k = format!("k{}", r.below(nk));
+            m.push(format!("\"k\":\"{}\"", k));
+            d.insert("k".into(), V::S(k));
+        }
+        if !r.chance(miss_b) {
+            let b = ["x", "y", "z"][r.below(nb)].to_string();
+            m.push(format!("\"b\":\"{}\"", b));
+            d.insert("b".into(), V::S(b));
+        }
+        if !r.chance(miss_v) {
+            let v = r.range(vlo, vhi);
+            m.push(format!("\"v\":{}", v));
+            d.insert("v".into(), V::I(v));
+        }
+        let u = r.range(0, 5);
+        m.push(format!("\"u\":{}", u));
+        d.insert("u".into(), V::I(u));
+        if r.chance(50) {
+            m.reverse();
+        }
+        input.push_str(&format!("{{{}}}\n", m.join(",")));
+        docs.push(d);
+    }
+    // the stages
+    let mut cols: Vec<(String, Kind)> = vec![("k".into(), Kind::Word), ("b".into(), Kind::Word), ("v".into(), Kind::IntOpt), ("u".into(), Kind::Int)];
+    let mut prev_aggs: Vec<String> = vec![];
+    let nst = if r.chance(65) { 2 } else { 3 };
+    let mut stages: Vec<St> = vec![];
+    for si in 0..nst {
+        let first = si == 0;
+        let last = si + 1 == nst;
+        // keys
+        let nkeys = match r.below(100) {
+            0..=9 if !last => 0,
+            0..=5 => 0,
+            6..=74 => 1,
+            _ => 2,
+        };
+        let mut keys: Vec<String> = vec![];
+        for _ in 0..nkeys {
+            let k = if first {
+                r.pick(&["k", "k", "k", "b", "b", "u", "v"]).to_string()
+            } else if !prev_aggs.is_empty() && r.chance(80) {
+                r.pick(&prev_aggs).clone()
+            } else {
+                cols[r.below(cols.len())].0.clone()
+            };
+            if !keys.contains(&k) {
+                keys.push(k);
+            }
+        }
+        // functions
+        let numeric: Vec<(String, Kind)> = cols.iter().filter(|c| c.1 != Kind::Word).cloned().collect();
+        let nf = 1 + r.below(3);
+        let mut funs: Vec<(String, AF)> = vec![];
+        let mut out_cols: Vec<(String, Kind)> = keys.iter().map(|k| (k.clone(), cols.iter().find(|c| &c.0 == k).map(|c| c.1).unwrap_or(Kind::Word))).collect();
+        for fi in 0..nf {
+            let name = format!("{}{}", ["p", "q", "r"][si], fi);
+            let num = numeric[r.below(numeric.len())].clone();
+            // (the language has no negative literal: thresholds are ≥ 0, the values need not be)
+            let thr = if first {
+                r.range(vlo.max(0), vhi)
+            } else if num.1 == Kind::Int {
+                r.range(0, 4)
+            } else {
+                r.range(0, 30)
+            };
+            // the first function of the first stage is one whose value moves while rows arrive
+            let choice = if first && fi == 0 { *r.pick(&[0usize, 0, 0, 2, 3, 4]) } else { r.below(7) };
+            let (f, kind) = match choice {
+                0 => (AF::Count, Kind::Int),
+                1 => (AF::CountGt(num.0, thr), Kind::Int),
+                2 => (AF::Sum(num.0), Kind::Int),
+                3 => (AF::Min(num.0), Kind::IntOpt),
+                4 => (AF::Max(num.0), Kind::IntOpt),
+                5 => (AF::Distinct(cols[r.below(cols.len())].0.clone()), Kind::Int),
+                _ => (AF::Count, Kind::Int),
+            };
+            funs.push((name.clone(), f));
+            out_cols.push((name, kind));
+        }
+        prev_aggs = funs.iter().map(|f| f.0.clone()).collect();
+        stages.push(St::Agg { funs, keys });
+        cols = out_cols;
+        // a filter between two stages
+        if !last && r.chance(20) {
+            let ints: Vec<&(String, Kind)> = cols.iter().filter(|c| c.1 == Kind::Int).collect();
+            if !ints.is_empty() {
+                let col = ints[r.below(ints.len())].0.clone();
+                stages.push(St::Where { col, gt: r.chance(50), t: r.range(0, 3) });
+            }
+        }
+    }
+    let query = format!("* | json | {}", stages.iter().map(st_text).collect::<Vec<_>>().join(" | "));
+    Chain { stages, query, docs, input: input.into_bytes() }
+}
+
+fn j_to_v(j: &J) -> V {
+    match j {
+        J::Null => V::N,
+        J::Int(i) => V::I(*i),
+        J::Str(s) => V::S(s.clone()),
+        other => V::S(format!("<{:?}>", other)),
+    }
+}
+
+/// first difference between a table of the implementation and the reference table, in words
+fn table_diff(cols_got: &[String], got: &[Vec<V>], want_cols: &[String], want: &[RRow]) -> Option<String> {
+    if want.is_empty() && got.is_empty() {
+        return None;
+    }
+    let (mut a, mut b) = (cols_got.to_vec(), want_cols.to_vec());
+    a.sort();
+    b.sort();
+    if a != b {
+        return Some(format!("columns {:?}, the stage defines {:?}", cols_got, want_cols));
+    }
+    let mut got_sorted = got.to_vec();
+    got_sorted.sort();
+    let want_rows = project(want, cols_got);
+    if let Some(extra) = got_sorted.iter().find(|g| !want_rows.contains(g)) {
+        return Some(format!("the result has the row {:?} (columns {:?}); no group of the rows that reach the last stage has these values ({} rows in the result, {} groups expected)", extra, cols_got, got.len(), want_rows.len()));
+    }
+    if let Some(lost) = want_rows.iter().find(|w| !got_sorted.contains(w)) {
+        return Some(format!("the row {:?} (columns {:?}) is missing from the result ({} rows in the result, {} groups expected)", lost, cols_got, got.len(), want_rows.len()));
+    }
+    if got_sorted != want_rows {
+        return Some(format!("{} rows in the result, {} groups expected: a key combination appears more than once", got.len(), want_rows.len()));
+    }
+    None
+}
+
+/// non-terminal: `-o json` of the whole chain against the reference, then implementation = model
+fn chain_plain(ctx: &mut Ctx, r: &mut Rng) {
+    let rows = match r.below(10) {
+        0 => r.below(3),
+        1..=6 => 3 + r.below(20),
+        _ => 20 + r.below(60),
+    };
+    let ch = gen_chain(r, rows);
+    let key = ckey(&ch.query, &ch.input);
+    let info = serde_json::json!({"query": ch.query, "input": String::from_utf8_lossy(&ch.input)});
+    let want = match ref_chain(&ch.docs, &ch.stages) {
+        Some(w) => w,
+        None => {
+            ctx.count("agg-of-agg not judged: a key-less stage that no row reaches");
+            return;
+        }
+    };
+    let c = run_both(ctx, &ch.query, &ch.input);
+    if !c.imp.compiled || c.imp.panicked.is_some() || c.imp.hung {
+        ctx.case("agg-of-agg", &key, "viol", serde_json::json!({"class": "", "what": "chain of aggregation stages did not run", "panic": c.imp.panicked, "compile_err": c.imp.compile_err, "case": info}));
+        return;
+    }
+    let text = String::from_utf8_lossy(&c.imp.stdout).to_string();
+    let want_cols = final_columns(&ch.stages);
+    let problem = match canon::parse(text.trim_end()) {
+        Ok(J::Arr(out)) => {
+            let mut got: Vec<Vec<V>> = vec![];
+            let mut bad = None;
+            for row in &out {
+                match row {
+                    J::Obj(kvs) => {
+                        let mut names: Vec<&String> = kvs.iter().map(|kv| &kv.0).collect();
+                        names.sort();
+                        let mut w: Vec<&String> = want_cols.iter().collect();
+                        w.sort();
+                        if names != w {
+                            bad = Some(format!("a row has the members {:?}, the stage defines {:?}", names, want_cols));
+                        }
+                        got.push(want_cols.iter().map(|c| kvs.iter().find(|kv| &kv.0 == c).map(|kv| j_to_v(&kv.1)).unwrap_or(V::S("<column missing>".into()))).collect());
+                    }
+                    _ => bad = Some("a row is not an object".to_string()),
+                }
+            }
+            bad.or_else(|| table_diff(&want_cols, &got, &want_cols, &want))
+        }
+        _ => Some("output is not a JSON array".to_string()),
+    };
+    match problem {
+        Some(w) => {
+            ctx.case("agg-of-agg", &key, "viol", serde_json::json!({"class": "", "what": w, "got": text, "case": info}));
+            return;
+        }
+        None => ctx.case("agg-of-agg", &key, "pass", info.clone()),
+    }
+    match compare(&c, true) {
+        F::Agree => ctx.case("model", &key, "pass", info),
+        F::Skip(w) => ctx.case("model", "", "skip", serde_json::json!({"why": w.split(':').next().unwrap_or("").to_string()})),
+        F::Disagree(d) => ctx.case("model", &key, "fdis", serde_json::json!({"what": d, "case": info})),
+    }
+}
+
+/// the cells of a table as the legacy printer draws it (cells hold no blanks here): header, rows.
+/// `No data` = no columns, no rows.  None = not a table.
+fn parse_legacy_table(text: &str) -> Option<(Vec<String>, Vec<Vec<V>>)> {
+    if text == "No data\n" {
+        return Some((vec![], vec![]));
+    }
+    let body = text.strip_suffix('\n')?;
+    let lines: Vec<&str> = body.split('\n').collect();
+    if lines.len() < 2 || lines[1].is_empty() || !lines[1].chars().all(|c| c == '-') {
+        return None;
+    }
+    let header: Vec<String> = lines[0].split_whitespace().map(|s| s.to_string()).collect();
+    let mut rows = vec![];
+    for l in &lines[2..] {
+        let cells: Vec<&str> = l.split_whitespace().collect();
+        if cells.len() != header.len() {
+            return None;
+        }
+        rows.push(
+            cells
+                .iter()
+                .map(|c| match (*c, c.parse::<i64>()) {
+                    ("None", _) => V::N,
+                    (_, Ok(i)) => V::I(i),
+                    (s, _) => V::S(s.to_string()),
+                })
+                .collect(),
+        );
+    }
+    Some((header, rows))
+}
+
+/// Live terminal (forced through the `verif` hooks, as C16 does): the input arrives in chunks with
+/// idle periods of 120–300 ms in between, the whole chain is re-run on every refresh (after the
+/// first row, on the scripted fraction of rows and idle ticks, at end of input).  A later stage
+/// thus receives a sequence of complete upstream tables and must describe the latest one only:
+/// the final frame is the reference table of ALL rows, equal to what a non-terminal run of the same
+/// bytes prints, and every earlier frame is the reference table of a (non-decreasing) input prefix.
+fn chain_live(ctx: &mut Ctx, idx: usize, r: &mut Rng) {
+    use super::c16::{frame_vs_plain, run_pipeline, split_frames};
+    let family = "live-agg-of-agg";
+    let rows = 3 + r.below(24);
+    let ch = gen_chain(r, rows);
+    // wide and tall enough for every table of the run: no clipping, no ellipsis
+    let w = 170 + r.below(80) as u16;
+    let h = 70 + r.below(60) as u16;
+    let line_starts: Vec<usize> = std::iter::once(0).chain(ch.input.iter().enumerate().filter(|(_, b)| **b == b'\n').map(|(i, _)| i + 1)).collect();
+    // paced: 2–4 idle periods between rows; one case in four arrives at once with a dense schedule
+    let paced = !r.chance(25);
+    let mut pauses: Vec<(usize, u64)> = vec![];
+    if paced {
+        for _ in 0..2 + r.below(3) {
+            pauses.push((line_starts[1 + r.below(rows - 1)], 120 + r.below(181) as u64));
+        }
+        pauses.sort();
+        pauses.dedup_by_key(|p| p.0);
+    }
+    let density = if paced { *r.pick(&[10usize, 40, 100]) } else { *r.pick(&[60usize, 100]) };
+    let seed = r.next();
+    let key = format!("{}:{}", family, ckey(&ch.query, &ch.input));
+    let info = serde_json::json!({"index": idx, "query": ch.query, "input": String::from_utf8_lossy(&ch.input), "size": [w, h], "refresh_density": density, "refresh_seed": seed,
+        "pauses_before_byte_ms": pauses, "rows": rows});
+    // the reference table of every prefix of the input
+    let refs: Vec<Option<Vec<RRow>>> = (0..=rows).map(|k| ref_chain(&ch.docs[..k], &ch.stages)).collect();
+    let want = match &refs[rows] {
+        Some(w) => w.clone(),
+        None => {
+            ctx.count("live-agg-of-agg not judged: a key-less stage that no row reaches");
+            return;
+        }
+    };
+    let want_cols = final_columns(&ch.stages);
+    let tty = run_pipeline(&ch.query, &ch.input, Some((w, h)), true, seed, density, pauses.clone());
+    if tty.hung || tty.panicked.is_some() || !tty.compiled {
+        ctx.case(family, &key, "viol", serde_json::json!({"class": "", "what": format!("terminal run failed: hung={} panic={:?} compiled={}", tty.hung, tty.panicked, tty.compiled), "case": info}));
+        return;
+    }
+    let plain = run_pipeline(&ch.query, &ch.input, None, false, seed, density, vec![]);
+    if plain.hung || plain.panicked.is_some() || !plain.compiled {
+        ctx.case(family, &key, "viol", serde_json::json!({"class": "", "what": format!("non-terminal run failed: hung={} panic={:?}", plain.hung, plain.panicked), "case": info}));
+        return;
+    }
+    let plain_text = String::from_utf8_lossy(&plain.bytes).into_owned();
+    let frames = split_frames(&String::from_utf8_lossy(&tty.bytes));
+    let last = frames.last().cloned().unwrap_or_default();
+    let judge = |text: &str, want: &[RRow]| -> Option<String> {
+        match parse_legacy_table(text) {
+            None => Some("not a table".to_string()),
+            Some((cols, got)) => table_diff(&cols, &got, &want_cols, want),
+        }
+    };
+    // 1. the final frame against the reference table of all rows
+    if let Some(what) = judge(&last, &want) {
+        ctx.case(
+            family,
+            &key,
+            "viol",
+            serde_json::json!({"class": "", "what": format!("final frame on a terminal, after {} frames: {}", frames.len(), what), "final_frame": last, "expected_rows": format!("{:?}", project(&want, &want_cols)),
+                "expected_columns": want_cols, "non_terminal_output": plain_text, "case": info}),
+        );
+        return;
+    }
+    // 2. the non-terminal run of the same bytes: the same table
+    if let Some(what) = judge(&plain_text, &want).or_else(|| frame_vs_plain(&last, &plain_text, w, h, false)) {
+        ctx.case(family, &key, "viol", serde_json::json!({"class": "", "what": format!("non-terminal run of the same query and bytes: {}", what), "final_frame": last, "non_terminal_output": plain_text, "case": info}));
+        return;
+    }
+    // 3. every earlier frame: the table of the rows received so far
+    let mut at = 0usize;
+    for (fi, f) in frames.iter().enumerate() {
+        let found = (at..=rows).find(|k| matches!(&refs[*k], Some(t) if judge(f, t).is_none()));
+        match found {
+            Some(k) => at = k,
+            None if (at..=rows).any(|k| refs[k].is_none()) => {} // may be a prefix that is not judged
+            None => {
+                let what = refs[at].as_ref().and_then(|t| judge(f, t)).unwrap_or_default();
+                ctx.case(
+                    family,
+                    &key,
+                    "viol",
+                    serde_json::json!({"class": "", "what": format!("frame {} of {} is not the table of any input prefix of ≥ {} rows; against the prefix of {} rows: {}", fi, frames.len(), at, at, what), "frame": f, "case": info}),
+                );
+                return;
+            }
+        }
+    }
+    ctx.case(family, &key, "pass", serde_json::json!({"query": ch.query, "rows": rows, "frames": frames.len(), "refresh_density": density, "idle_periods": pauses.len(), "size": [w, h]}));
 }
